@@ -113,33 +113,45 @@ Record Inv (s : uf) (r d : nat -> nat) : Prop := {
   i_forest : Forest (length (elts s)) (par s) r d;
   i_ncomps : ncomps s = cnt (fun j => r j =? j) (length (elts s));
   i_siz : forall i, i < length (elts s) -> r i = i ->
-                    nth i (siz s) 0 = cnt (fun j => r j =? i) (length (elts s))
+                    nth i (siz s) 0 = cnt (fun j => r j =? i) (length (elts s));
+  (* n_elts, _next and the dict _indx agree with _elts *)
+  i_nelts : n_elts s = length (elts s);
+  i_next : next s = length (elts s);
+  i_indx : indx s = combine (elts s) (seq 0 (length (elts s)))
 }.
+
+Lemma lookup_ok s x :
+  indx s = combine (elts s) (seq 0 (length (elts s))) -> lookup x (indx s) = index_of x (elts s).
+Proof. intros ->. apply lookup_index. Qed.
 
 (* s' differs from s in the parent array only *)
 Definition same_but_par (s s' : uf) : Prop :=
-  elts s' = elts s /\ siz s' = siz s /\ ncomps s' = ncomps s.
+  elts s' = elts s /\ siz s' = siz s /\ ncomps s' = ncomps s /\
+  n_elts s' = n_elts s /\ next s' = next s /\ indx s' = indx s.
 
 Lemma sbp_refl s : same_but_par s s.
 Proof. repeat split. Qed.
 
 Lemma sbp_trans s1 s2 s3 : same_but_par s1 s2 -> same_but_par s2 s3 -> same_but_par s1 s3.
-Proof. unfold same_but_par. intros (A & B & C) (A' & B' & C'). repeat split; congruence. Qed.
+Proof.
+  unfold same_but_par. intros (A & B & C & D & E & F) (A' & B' & C' & D' & E' & F').
+  repeat split; congruence.
+Qed.
 
 Lemma find_spec s r d x i :
   Inv s r d -> index_of x (elts s) = Some i ->
   exists s', find s x = Ok (s', r i) /\ same_but_par s s' /\ Inv s' r d.
 Proof.
-  intros [SL ND F NC SZ] E. unfold find. rewrite E.
+  intros [SL ND F NC SZ NE NX IX] E. unfold find. rewrite (lookup_ok s x IX), E.
   destruct (index_of_Some _ _ _ E) as [Hi _].
   destruct (find_loop_ok _ r d (S (length (par s))) (par s) i F Hi) as (p' & E1 & F1).
   { rewrite (f_len _ _ _ _ F). pose proof (rank_le d (length (elts s)) i). lia. }
   rewrite E1. eexists. split; [reflexivity|]. split; [repeat split|].
-  split; simpl; auto.
+  unfold with_par. split; simpl; auto.
 Qed.
 
-Lemma find_absent s x : index_of x (elts s) = None -> find s x = ValueError.
-Proof. intros E. unfold find. rewrite E. reflexivity. Qed.
+Lemma find_absent s r d x : Inv s r d -> index_of x (elts s) = None -> find s x = ValueError.
+Proof. intros I E. unfold find. rewrite (lookup_ok s x (i_indx _ _ _ I)), E. reflexivity. Qed.
 
 Lemma connected_spec s r d x y i j :
   Inv s r d -> index_of x (elts s) = Some i -> index_of y (elts s) = Some j ->
@@ -160,8 +172,8 @@ Proof.
   destruct (index_of x (elts s)) as [i|] eqn:Ex.
   - destruct H as [H|H]; [discriminate|].
     destruct (find_spec s r d x i I Ex) as (s1 & E1 & B1 & I1). rewrite E1.
-    rewrite find_absent; [reflexivity|]. destruct B1 as (-> & _); exact H.
-  - rewrite find_absent by exact Ex. reflexivity.
+    rewrite (find_absent s1 r d y I1); [reflexivity|]. destruct B1 as (-> & _); exact H.
+  - rewrite (find_absent s r d x I) by exact Ex. reflexivity.
 Qed.
 
 (* index of an element (0 for absent ones, never used for those) and the root of an element *)
@@ -197,36 +209,38 @@ Ltac beq :=
          | H : context [Nat.eqb ?x ?y] |- _ => destruct (Nat.eqb_spec x y)
          end.
 
-Lemma mem_index s x : mem s x = true <-> exists i, index_of x (elts s) = Some i.
+Lemma mem_index s r d x : Inv s r d -> (mem s x = true <-> exists i, index_of x (elts s) = Some i).
 Proof.
-  unfold mem. destruct (index_of x (elts s)) as [i|]; split; intros H; eauto; try discriminate.
+  intros I. unfold mem. rewrite (lookup_ok s x (i_indx _ _ _ I)). destruct (index_of x (elts s)) as [i|]; split; intros H; eauto; try discriminate.
   destruct H; discriminate.
 Qed.
 
-Lemma mem_In s x : mem s x = true <-> In x (elts s).
-Proof. rewrite mem_index. symmetry. apply index_of_In. Qed.
+Lemma mem_In s r d x : Inv s r d -> (mem s x = true <-> In x (elts s)).
+Proof. intros I. rewrite (mem_index s r d x I). symmetry. apply index_of_In. Qed.
 
 Lemma add_present s x : mem s x = true -> add s x = s.
 Proof. intros H. unfold add. rewrite H. reflexivity. Qed.
 
 Lemma add_absent s x :
   mem s x = false ->
-  add s x = mkuf (elts s ++ [x]) (par s ++ [length (par s)]) (siz s ++ [1]) (S (ncomps s)).
+  add s x = mkuf (elts s ++ [x]) (par s ++ [next s]) (siz s ++ [1]) (S (ncomps s))
+                 (S (n_elts s)) (S (next s)) (indx s ++ [(x, next s)]).
 Proof. intros H. unfold add. rewrite H. reflexivity. Qed.
 
 Lemma add_inv_new s r d x :
   Inv s r d -> ~ In x (elts s) ->
-  Inv (mkuf (elts s ++ [x]) (par s ++ [length (par s)]) (siz s ++ [1]) (S (ncomps s)))
+  Inv (mkuf (elts s ++ [x]) (par s ++ [next s]) (siz s ++ [1]) (S (ncomps s))
+            (S (n_elts s)) (S (next s)) (indx s ++ [(x, next s)]))
       (fun i => if i =? length (elts s) then length (elts s) else r i) d.
 Proof.
-  intros [SL ND F NC SZ] Hx. destruct F as [L PL RL RR RP FX D].
+  intros [SL ND F NC SZ NE NX IX] Hx. destruct F as [L PL RL RR RP FX D]. rewrite NX.
   remember (length (elts s)) as n eqn:Hn.
   assert (Ln : length (elts s ++ [x]) = S n) by (rewrite app_length; simpl; lia).
-  assert (G : forall j, j < S n -> getp (par s ++ [length (par s)]) j = if j =? n then n else getp (par s) j).
+  assert (G : forall j, j < S n -> getp (par s ++ [n]) j = if j =? n then n else getp (par s) j).
   { intros j Hj. destruct (Nat.eqb_spec j n) as [->|Hne].
     - rewrite <- L. rewrite getp_app_new. reflexivity.
     - apply getp_app1. lia. }
-  split; cbn [elts par siz ncomps]; rewrite ?Ln.
+  split; cbn [elts par siz ncomps n_elts next indx]; rewrite ?Ln.
   - rewrite !app_length. simpl. lia.
   - apply (Permutation_NoDup (Permutation_cons_append (elts s) x)). constructor; auto.
   - split.
@@ -258,6 +272,9 @@ Proof.
     + rewrite app_nth1 by lia. rewrite SZ by (auto; lia).
       destruct (Nat.eqb_spec n i); [lia|]. rewrite Nat.add_0_r.
       apply cnt_ext. intros j Hj. destruct (Nat.eqb_spec j n); [lia|reflexivity].
+  - lia.
+  - reflexivity.
+  - rewrite IX, seq_S. simpl. rewrite combine_app by (rewrite seq_length; symmetry; exact Hn). reflexivity.
 Qed.
 
 (* add, whether or not the element was there: the root function is extended, never changed *)
@@ -272,7 +289,7 @@ Proof.
   - exists r. rewrite add_present by exact E. split; [exact I|]. split; [auto|]. split; [auto|]. intros; discriminate.
   - exists (fun i => if i =? length (elts s) then length (elts s) else r i).
     rewrite add_absent by exact E. split; [|split; [|split]].
-    + apply add_inv_new; auto. intros H. apply mem_In in H. congruence.
+    + apply add_inv_new; auto. intros H. apply (mem_In s r d x I) in H. congruence.
     + intros i Hi. destruct (Nat.eqb_spec i (length (elts s))); [lia|reflexivity].
     + intros; discriminate.
     + intros _. split; [reflexivity|]. rewrite Nat.eqb_refl. reflexivity.
@@ -282,11 +299,12 @@ Qed.
 Lemma link_inv s r d a b :
   Inv s r d -> a < length (elts s) -> b < length (elts s) -> r a = a -> r b = b -> a <> b ->
   Inv (mkuf (elts s) (upd (par s) a b)
-            (upd (siz s) b (nth b (siz s) 0 + nth a (siz s) 0)) (pred (ncomps s)))
+            (upd (siz s) b (nth b (siz s) 0 + nth a (siz s) 0)) (pred (ncomps s))
+            (n_elts s) (next s) (indx s))
       (fun i => if r i =? a then b else r i)
       (fun i => if r i =? a then d i + d b + 1 else d i).
 Proof.
-  intros [SL ND F NC SZ] Ha Hb Ra Rb Hab.
+  intros [SL ND F NC SZ NE NX IX] Ha Hb Ra Rb Hab.
   assert (Pb : getp (par s) b = b) by (apply (forest_root_iff _ _ _ _ _ F); auto).
   destruct F as [L PL RL RR RP FX D].
   remember (length (elts s)) as n eqn:Hn.
@@ -294,7 +312,7 @@ Proof.
   { intros j. destruct (Nat.eqb_spec j a) as [->|Hne].
     - apply getp_upd_eq. lia.
     - apply getp_upd_neq. lia. }
-  split; cbn [elts par siz ncomps]; rewrite <- ?Hn.
+  split; cbn [elts par siz ncomps n_elts next indx]; rewrite <- ?Hn.
   - rewrite upd_length. exact SL.
   - exact ND.
   - split.
@@ -329,6 +347,9 @@ Proof.
       * intros j Hj. beq; subst; simpl; try reflexivity; try lia; congruence.
     + rewrite nth_upd_neq by lia. rewrite (SZ i Hi Ri).
       apply cnt_ext. intros j Hj. beq; subst; simpl; try reflexivity; try lia; congruence.
+  - exact NE.
+  - exact NX.
+  - exact IX.
 Qed.
 
 (* ------------------------------------------------------------------ union *)
@@ -435,7 +456,7 @@ Proof.
   assert (EP : forall x, In x (elts (add s a)) <-> present (h ++ [Add a]) x).
   { intros x. rewrite present_snoc. simpl. destruct (mem s a) eqn:E.
     - rewrite Hp by reflexivity. rewrite RP. split; [auto|].
-      intros [H|[<-|[]]]; [exact H|]. apply RP. apply mem_In. exact E.
+      intros [H|[<-|[]]]; [exact H|]. apply RP. apply (mem_In s r d a I). exact E.
     - destruct Ha as [-> _]; [reflexivity|]. rewrite in_app_iff. simpl. rewrite RP. tauto. }
   assert (Mono : forall x y, conn h x y -> conn (h ++ [Add a]) x y).
   { intros x y. apply conn_mono.
@@ -530,11 +551,11 @@ Proof. induction l as [|x t IH]; simpl; auto. destruct (f x); rewrite IH; reflex
 Lemma combine_map_r {A B} (f : A -> B) l : combine l (map f l) = map (fun x => (x, f x)) l.
 Proof. induction l as [|x t IH]; simpl; auto. rewrite IH; reflexivity. Qed.
 
-Lemma mem_false_index s x : index_of x (elts s) = None -> mem s x = false.
-Proof. intros H. unfold mem. rewrite H. reflexivity. Qed.
+Lemma mem_false_index s r d x : Inv s r d -> index_of x (elts s) = None -> mem s x = false.
+Proof. intros I H. unfold mem. rewrite (lookup_ok s x (i_indx _ _ _ I)), H. reflexivity. Qed.
 
-Lemma mem_true_index s x i : index_of x (elts s) = Some i -> mem s x = true.
-Proof. intros H. unfold mem. rewrite H. reflexivity. Qed.
+Lemma mem_true_index s r d x i : Inv s r d -> index_of x (elts s) = Some i -> mem s x = true.
+Proof. intros I H. unfold mem. rewrite (lookup_ok s x (i_indx _ _ _ I)), H. reflexivity. Qed.
 
 Lemma find_all_elts s r d :
   Inv s r d ->
@@ -546,7 +567,7 @@ Lemma component_spec s r d x i :
   exists s', component s x = Ok (s', filter (fun y => r i =? rootz s r y) (elts s)) /\
              same_but_par s s' /\ Inv s' r d.
 Proof.
-  intros I E. unfold component. rewrite (mem_true_index _ _ _ E). cbn [negb].
+  intros I E. unfold component. rewrite (mem_true_index s r d x i I E). cbn [negb].
   destruct (find_all_elts s r d I) as (s1 & E1 & B1 & I1). rewrite E1.
   assert (Ex1 : index_of x (elts s1) = Some i) by (destruct B1 as (-> & _); exact E).
   destruct (find_spec s1 r d x i I1 Ex1) as (s2 & E2 & B2 & I2). rewrite E2.
@@ -555,8 +576,8 @@ Proof.
   destruct B as (-> & _). rewrite map_map, select_map_filter. reflexivity.
 Qed.
 
-Lemma component_absent s x : index_of x (elts s) = None -> component s x = ValueError.
-Proof. intros E. unfold component. rewrite (mem_false_index _ _ E). reflexivity. Qed.
+Lemma component_absent s r d x : Inv s r d -> index_of x (elts s) = None -> component s x = ValueError.
+Proof. intros I E. unfold component. rewrite (mem_false_index s r d x I E). reflexivity. Qed.
 
 Definition root_list (s : uf) (r : nat -> nat) : list nat := nodup_nat (map (rootz s r) (elts s)).
 
@@ -604,18 +625,18 @@ Qed.
 Lemma apply_query s r d o :
   Inv s r d -> is_query o -> same_but_par s (apply s o) /\ Inv (apply s o) r d.
 Proof.
-  intros I Q. destruct o as [a|a b|a|a b|a| | | | | |a]; cbn [apply is_query] in *;
+  intros I Q. destruct o as [a|a b|a|a b|a| | | | | |a|a]; cbn [apply is_query] in *;
     try contradiction; try (split; [apply sbp_refl|exact I]).
   - destruct (index_of a (elts s)) as [i|] eqn:E.
     + destruct (find_spec s r d a i I E) as (s' & E1 & B1 & I1). rewrite E1. auto.
-    + rewrite find_absent by exact E. split; [apply sbp_refl|exact I].
+    + rewrite (find_absent s r d a I) by exact E. split; [apply sbp_refl|exact I].
   - destruct (index_of a (elts s)) as [i|] eqn:Ea; [destruct (index_of b (elts s)) as [j|] eqn:Eb|].
     + destruct (connected_spec s r d a b i j I Ea Eb) as (s' & E1 & B1 & I1). rewrite E1. auto.
     + rewrite (connected_absent s r d a b I) by auto. split; [apply sbp_refl|exact I].
     + rewrite (connected_absent s r d a b I) by auto. split; [apply sbp_refl|exact I].
   - destruct (index_of a (elts s)) as [i|] eqn:E.
     + destruct (component_spec s r d a i I E) as (s' & E1 & B1 & I1). rewrite E1. auto.
-    + rewrite component_absent by exact E. split; [apply sbp_refl|exact I].
+    + rewrite (component_absent s r d a I) by exact E. split; [apply sbp_refl|exact I].
   - destruct (roots_spec s r d I) as (s' & E1 & B1 & I1). rewrite E1. auto.
   - destruct (components_spec s r d I) as (s' & E1 & B1 & I1). rewrite E1. auto.
   - destruct (mapping_spec s r d I) as (s' & E1 & B1 & I1). rewrite E1. auto.
@@ -655,7 +676,7 @@ Proof.
       * intros (i & j & A & _). simpl in A. discriminate.
       * intros H. apply conn_present in H as [H _]. destruct H.
   - destruct IH as (r & d & I & R). rewrite reach_snoc.
-    destruct o as [a|a b|a|a b|a| | | | | |a].
+    destruct o as [a|a b|a|a b|a| | | | | |a|a].
     + destruct (step_add h _ r d a I R) as (r' & I' & R' & _). exists r', d. auto.
     + destruct (step_union h _ r d a b I R) as (s' & r' & d' & E & I' & R').
       cbn [apply]. rewrite E. exists r', d'. auto.
@@ -668,6 +689,7 @@ Proof.
     + exists r, d. destruct (apply_query _ r d Len I) as [B I']; [exact Logic.I|]. split; [exact I'|]. eapply refines_query; eauto. exact Logic.I.
     + exists r, d. destruct (apply_query _ r d NComps I) as [B I']; [exact Logic.I|]. split; [exact I'|]. eapply refines_query; eauto. exact Logic.I.
     + exists r, d. destruct (apply_query _ r d (Contains a) I) as [B I']; [exact Logic.I|]. split; [exact I'|]. eapply refines_query; eauto. exact Logic.I.
+    + exists r, d. destruct (apply_query _ r d (GetItem a) I) as [B I']; [exact Logic.I|]. split; [exact I'|]. eapply refines_query; eauto. exact Logic.I.
 Qed.
 
 (* ------------------------------------------------------------------ theorem 1: invariant, totality *)
@@ -689,6 +711,10 @@ Proof.
   - apply (f_len _ _ _ _ F).
   - apply (i_siz_len _ _ _ I).
   - apply (i_nodup _ _ _ I).
+  - apply (i_nelts _ _ _ I).
+  - apply (i_next _ _ _ I).
+  - apply (i_indx _ _ _ I).
+  - intros x. apply lookup_ok. apply (i_indx _ _ _ I).
   - apply (f_par_lt _ _ _ _ F).
   - intros i Hi. destruct (root_of_inv s r d i I Hi) as (p' & E & E'). exists p'. rewrite E'. exact E.
   - intros i Hi. rewrite !RO by (auto; apply (f_par_lt _ _ _ _ F); exact Hi).
@@ -709,7 +735,7 @@ Proof.
   split; [|split; [|split; [|split; [|split; [|split; [|split; [|split; [|split]]]]]]]].
   - intros x Hx. apply index_of_In in Hx as [i E].
     destruct (find_spec s r d x i I E) as (s' & E1 & _). eauto.
-  - intros x Hx. apply find_absent. apply not_In_index. exact Hx.
+  - intros x Hx. apply (find_absent s r d x I). apply not_In_index. exact Hx.
   - intros x y. destruct (step_union h s r d x y I R) as (s' & _ & _ & E & _). eauto.
   - intros x y Hx Hy. apply index_of_In in Hx as [i Ex]. apply index_of_In in Hy as [j Ey].
     destruct (connected_spec s r d x y i j I Ex Ey) as (s' & E1 & _). eauto.
@@ -717,7 +743,7 @@ Proof.
     destruct H as [H|H]; [left|right]; apply not_In_index; exact H.
   - intros x Hx. apply index_of_In in Hx as [i E].
     destruct (component_spec s r d x i I E) as (s' & E1 & _). eauto.
-  - intros x Hx. apply component_absent. apply not_In_index. exact Hx.
+  - intros x Hx. apply (component_absent s r d x I). apply not_In_index. exact Hx.
   - destruct (roots_spec s r d I) as (s' & E1 & _). eauto.
   - destruct (components_spec s r d I) as (s' & E1 & _). eauto.
   - destruct (mapping_spec s r d I) as (s' & E1 & _). eauto.
@@ -750,12 +776,12 @@ Lemma uf_refines : forall (h : list op) (x y : Z),
 Proof.
   intros h x y s. destruct (reach_inv h) as (r & d & I & [RP RC]). fold s in I, RP, RC.
   pose proof (F := i_forest _ _ _ I).
-  split; [rewrite mem_In; apply RP|].
+  split; [rewrite (mem_In s r d x I); apply RP|].
   assert (FI : forall s' i, find s x = Ok (s', i) ->
       i < length (elts s) /\ conn h x (nth i (elts s) 0%Z) /\
       forall y s'' j, conn h x y -> find s' y = Ok (s'', j) -> j = i).
   { intros s' i0 E. destruct (index_of x (elts s)) as [i|] eqn:Ex.
-    2:{ rewrite find_absent in E by exact Ex. discriminate. }
+    2:{ rewrite (find_absent s r d x I) in E by exact Ex. discriminate. }
     destruct (find_spec s r d x i I Ex) as (s1 & E1 & B1 & I1).
     rewrite E1 in E. inversion E; subst s' i0. clear E.
     destruct (index_of_Some _ _ _ Ex) as [Hi _].
@@ -818,6 +844,7 @@ Lemma uf_queries_pure : forall (h : list op) (o : op),
   let s := reach h in
   let s' := apply s o in
   elts s' = elts s /\ siz s' = siz s /\ ncomps s' = ncomps s /\
+  n_elts s' = n_elts s /\ next s' = next s /\ indx s' = indx s /\
   (forall i, i < length (elts s) -> root_of s' i = root_of s i) /\
   (forall x y, same_comp s' x y = same_comp s x y) /\
   (forall x y, conn (h ++ [o]) x y <-> conn h x y).
@@ -825,14 +852,80 @@ Proof.
   intros h o Q s s'. destruct (reach_inv h) as (r & d & I & R). fold s in I, R.
   destruct (apply_query s r d o I Q) as [B I']. fold s' in B, I'.
   pose proof (R' := refines_query h s s' r o R B Q).
-  destruct B as (El & Es & En).
-  split; [exact El|]. split; [exact Es|]. split; [exact En|]. split; [|split].
+  destruct B as (El & Es & En & Ee & Ex & Ei).
+  split; [exact El|]. split; [exact Es|]. split; [exact En|].
+  split; [exact Ee|]. split; [exact Ex|]. split; [exact Ei|]. split; [|split].
   - intros i Hi.
     destruct (root_of_inv s r d i I Hi) as (_ & _ & E1).
     destruct (root_of_inv s' r d i I') as (_ & _ & E2); [rewrite El; exact Hi|]. congruence.
   - intros x y. rewrite (same_comp_spec s' r d x y I'), (same_comp_spec s r d x y I), El. reflexivity.
   - intros x y. destruct R as [_ RC]. destruct R' as [_ RC'].
     rewrite <- RC, <- RC'. unfold Rel. rewrite El. tauto.
+Qed.
+
+(* ------------------------------------------------------------------ storage order, len, uf[i] *)
+Lemma added_snoc h o : added (h ++ [o]) = fold_left ins (touched o) (added h).
+Proof. unfold added. rewrite flat_map_app, fold_left_app. simpl. rewrite app_nil_r. reflexivity. Qed.
+
+Lemma elts_add s r d a : Inv s r d -> elts (add s a) = ins (elts s) a.
+Proof.
+  intros I. unfold ins, add, mem. rewrite existsb_index, (lookup_ok s a (i_indx _ _ _ I)).
+  destruct (index_of a (elts s)); reflexivity.
+Qed.
+
+Lemma In_add_self s r d a : Inv s r d -> In a (elts (add s a)).
+Proof.
+  intros I. destruct (mem s a) eqn:E.
+  - rewrite add_present by exact E. apply (mem_In s r d a I). exact E.
+  - rewrite add_absent by exact E. simpl. apply in_or_app. right. simpl. auto.
+Qed.
+
+Lemma In_add_mono s a x : In x (elts s) -> In x (elts (add s a)).
+Proof. intros H. unfold add. destruct (mem s a); [exact H|]. simpl. apply in_or_app. auto. Qed.
+
+Lemma union_elts s r d a b :
+  Inv s r d -> exists s', union s a b = Ok s' /\ elts s' = ins (ins (elts s) a) b.
+Proof.
+  intros I. destruct (add_spec s r d a I) as (r1 & I1 & _).
+  destruct (add_spec (add s a) r1 d b I1) as (r0 & I0 & _).
+  assert (Pa : In a (elts (add (add s a) b))) by (apply In_add_mono; eapply In_add_self; eauto).
+  assert (Pb : In b (elts (add (add s a) b))) by (eapply In_add_self; eauto).
+  apply index_of_In in Pa as [ia Ea]. apply index_of_In in Pb as [ib Eb].
+  destruct (union_spec s a b r0 d ia ib I0 Ea Eb) as (s' & _ & _ & EU & _ & EL & _).
+  exists s'. split; [exact EU|].
+  rewrite EL, (elts_add (add s a) r1 d b I1), (elts_add s r d a I). reflexivity.
+Qed.
+
+(* _elts lists the distinct elements in order of first insertion *)
+Lemma reach_elts h : elts (reach h) = added h.
+Proof.
+  induction h as [|o h IH] using rev_ind; [reflexivity|].
+  destruct (reach_inv h) as (r & d & I & _).
+  rewrite reach_snoc, added_snoc, <- IH.
+  destruct o as [a|a b|a|a b|a| | | | | |a|a]; cbn [touched fold_left].
+  - apply (elts_add _ r d a I).
+  - destruct (union_elts _ r d a b I) as (s' & E & EL). cbn [apply]. rewrite E. exact EL.
+  - apply (apply_query _ r d (Find a) I Logic.I).
+  - apply (apply_query _ r d (Connected a b) I Logic.I).
+  - apply (apply_query _ r d (Component a) I Logic.I).
+  - apply (apply_query _ r d Roots I Logic.I).
+  - apply (apply_query _ r d Components I Logic.I).
+  - apply (apply_query _ r d Mapping I Logic.I).
+  - reflexivity.
+  - reflexivity.
+  - reflexivity.
+  - reflexivity.
+Qed.
+
+Lemma getitem_spec s r d i :
+  Inv s r d ->
+  getitem s i = if ((i <? 0) || (Z.of_nat (length (elts s)) <=? i))%Z then None
+                else Some (nth (Z.to_nat i) (elts s) 0%Z).
+Proof.
+  intros I. unfold getitem. rewrite (i_next _ _ _ I).
+  destruct (i <? 0)%Z eqn:E1; [reflexivity|].
+  destruct (Z.of_nat (length (elts s)) <=? i)%Z eqn:E2; [reflexivity|]. cbn [orb].
+  apply nth_error_nth'. apply Z.ltb_ge in E1. apply Z.leb_gt in E2. lia.
 Qed.
 
 (* ------------------------------------------------------------------ theorem 4: the views *)
@@ -980,6 +1073,9 @@ Qed.
 Lemma uf_views : forall h : list op,
   let s := reach h in
   (NoDup (elts s) /\ forall x, In x (elts s) <-> present h x) /\
+  (elts s = added h /\ n_elts s = length (added h) /\ next s = length (added h)) /\
+  (forall i, getitem s i = if ((i <? 0) || (Z.of_nat (length (added h)) <=? i))%Z then None
+                           else Some (nth (Z.to_nat i) (added h) 0%Z)) /\
   (forall x s' l, component s x = Ok (s', l) -> NoDup l /\ forall y, In y l <-> conn h x y) /\
   (forall s' cs, components s = Ok (s', cs) ->
      Permutation (concat cs) (elts s) /\ length cs = ncomps s /\ (forall c, In c cs -> c <> []) /\
@@ -1002,9 +1098,12 @@ Proof.
   pose proof (ND := i_nodup _ _ _ I).
   destruct (reps_props h s r d I R) as (P1 & P2 & P3 & P4 & P5).
   split; [split; [exact ND|exact RP]|].
+  assert (EA : elts s = added h) by apply reach_elts.
+  split; [split; [exact EA|]; rewrite <- EA; split; [apply (i_nelts _ _ _ I)|apply (i_next _ _ _ I)]|].
+  split; [intros i; rewrite <- EA; apply (getitem_spec s r d i I)|].
   split.
   { intros x s' l E. destruct (index_of x (elts s)) as [i|] eqn:Ex.
-    2:{ rewrite component_absent in E by exact Ex. discriminate. }
+    2:{ rewrite (component_absent s r d x I) in E by exact Ex. discriminate. }
     destruct (component_spec s r d x i I Ex) as (s1 & E1 & _). rewrite E1 in E.
     inversion E; subst s' l. split; [apply NoDup_filter; exact ND|].
     intros y. apply (class_filter h s r d x y (r i) I R).
@@ -1062,7 +1161,8 @@ Section Examples.
      Components; Union 11 12; Union 12 7; Roots].
 
   Example ex_reach :
-    reach ex_h = mkuf [5; 7; 9; 3; 11; 12] [0; 4; 0; 4; 4; 4]%nat [2; 2; 1; 1; 4; 1]%nat 2.
+    reach ex_h = mkuf [5; 7; 9; 3; 11; 12] [0; 4; 0; 4; 4; 4]%nat [2; 2; 1; 1; 4; 1]%nat 2 6 6
+                      [(5, 0%nat); (7, 1%nat); (9, 2%nat); (3, 3%nat); (11, 4%nat); (12, 5%nat)].
   Proof. vm_compute. reflexivity. Qed.
 
   Example ex_wf : uf_wf (reach ex_h) /\ length (elts (reach ex_h)) = 6%nat.
@@ -1093,6 +1193,13 @@ Section Examples.
                 Ok (s', [(5, [5; 9]); (7, [7; 3; 11; 12]); (9, [5; 9]); (3, [7; 3; 11; 12]);
                          (11, [7; 3; 11; 12]); (12, [7; 3; 11; 12])])).
   Proof. repeat split; eexists; vm_compute; reflexivity. Qed.
+
+  (* uf[i]: in range, negative (rejected, unlike Python lists), == len *)
+  Example ex_getitem :
+    added ex_h = [5; 7; 9; 3; 11; 12] /\ n_elts (reach ex_h) = 6%nat /\
+    getitem (reach ex_h) 3 = Some 3 /\ getitem (reach ex_h) 0 = Some 5 /\
+    getitem (reach ex_h) (-1) = None /\ getitem (reach ex_h) 6 = None.
+  Proof. repeat split; vm_compute; reflexivity. Qed.
 
   (* a query that does compress a path (so "queries never change the partition" is not vacuous) *)
   Definition ex_h2 : list op := [Union 1 2; Union 3 4; Union 1 3].
